@@ -166,17 +166,20 @@ def run(ctx):
 
     def design():
         ctx.mc("frontends/MCSftpHandles", mc_cfg(consts), name="MC SftpHandles", timeout=7200)
+
+    def design_code_rule():
         r = ctx.mc("frontends/MCSftpHandles", mc_cfg(c2), name="MC SftpHandles (size rule of the code, must fail)", expect_ok=False,
                    timeout=3000)
         if "SH_CloseCommits" not in r.violated and not os.environ.get("VERIF_SKIP_MC"):
             raise RuntimeError("the model with the code's size rule was not refuted: %s" % r.violated)
 
-    n = 100 if q else 1500
-    # the model checker and the driver of the real code do not depend on each other: run them side by side
-    with ThreadPoolExecutor(max_workers=1) as ex:
-        fut = ex.submit(design)
+    n = 100 if q else 1200
+    # the two model-checking runs and the driver of the real code do not depend on each other: run them side by side
+    with ThreadPoolExecutor(max_workers=2) as ex:
+        futs = [ex.submit(design), ex.submit(design_code_rule)]
         out = ctx.impl("harness/sftp_handles_driver.py", ["--n", n, "--events", 14 if q else 24])
-        fut.result()
+        for f in futs:
+            f.result()
     traces = out["traces"]
     ctx.constants["TRACE"] = out["info"]
     stats = {"requests": 0, "piped": 0, "opens_ok": 0, "opens_refused": 0, "commits": 0, "reads_ok": 0, "observations": 0, "hangs": 0}
